@@ -512,7 +512,7 @@ fn rule_for(prop: &str) -> &'static str {
         "C07" => "every node of the dot-segment and separator lenses and their typed copies; non-trivial = accepted and the input has a namespace or subpath region",
         "C08" => "sweep: every Unicode scalar value as name 'c' and 'xcx' for each of the seven types, every string up to the bound over {a A 1 - _ . E-acute titlecase-dz} for pypi and nuget, through builder and parser (name fully percent-encoded), every maven namespace up to 5 tokens over {/ a %2F .}; lenses: typed vs type-agnostic differential on every node; non-trivial = a typed value was produced or a typed/untyped disagreement had to be classified",
         "C10" => "every node of every token lens; non-trivial = accepted (into_builder().build() is then compared with the value)",
-        "C13" => "parser: every node of the lenses as String and as SmallString (acceptance, error text, accessors, canonical string compared); builder: every Unicode scalar value as type and after a letter, all ASCII pairs as type, all type strings up to the bound over {a z A Z m M 9 . + - ! E-acute}, and all pairs of field values over the 18-string universe x 4 types x 4 qualifier sets, each built with String, Cow::Owned, Cow::Borrowed and SmallString and the outcomes compared; non-trivial = accepted lens nodes and every builder case",
+        "C13" => "parser: every node of the lenses as String and as SmallString (acceptance, error text, accessors, canonical string compared); builder: every Unicode scalar value as type and after a letter, all ASCII pairs as type, all type strings up to the bound over {a z A Z m M 9 . + - ! E-acute}, and all pairs of field values over the 19-string universe x 4 types x 4 qualifier sets, each built with String, Cow::Owned, Cow::Borrowed and SmallString and the outcomes compared; non-trivial = accepted lens nodes and every builder case",
         "C15" => "all 2^len case variants of the seven names; every string up to the bound over the letters of the names in both cases plus look-alikes; every scalar value inserted at and substituted at every position of every name; deletions, transpositions, paddings, 35 other type names; non-trivial = every string except substitutions that reproduce the original letter",
         "C16" => "every node of the token lenses, every spelling with at most d deviations and every single-fault string of the spelling explorer, as GenericPurl<String> and Purl: deserialising the JSON string (serde_json::from_str, from_value, value::StringDeserializer) succeeds exactly when from_str does, with equal value and the same error text; serialising gives exactly the canonical string; JSON round trip is the identity; eight non-string JSON values around each accepted PURL are refused. Every string is non-trivial",
         "C17" => "one deterministic input stream (token lenses at n-1, spellings with at most one deviation, builder field pairs x qualifier sets x types) is run by the same harness source built once per feature set; outcome lines (error text, or type/accessors/canonical string) are hashed per chunk and the digests compared; non-trivial = every input of the stream (it is executed in every build)",
